@@ -119,11 +119,33 @@ class ExprBuilder:
         return ('?', rv.get('s', k)[:80])
 
     def switch_cond(self, block):
-        """expression switched on in a switch block"""
+        """expression switched on in a switch block.  A *named* bool local is folded into its
+        definition only when it has a single definition located in the switch block itself or in its
+        unique direct predecessor (evaluated immediately before the branch: cannot be stale)."""
         t = block.term
         if t.k != 'switch':
             return None
-        return self.operand(Operand(t.d['d']))
+        e = self.operand(Operand(t.d['d']))
+        return self._unfold_fresh_named(e, block, 0)
+
+    def _unfold_fresh_named(self, e, block, depth):
+        if depth > 3 or not isinstance(e, tuple):
+            return e
+        if e[0] == 'un' and e[1] == 'Not':
+            return ('un', 'Not', self._unfold_fresh_named(e[2], block, depth + 1))
+        if e[0] == 'place' and len(e) == 2:
+            ls = [l for l in self.body.locals_named(e[1]) if self.body.lty(l) == 'bool']
+            if len(ls) == 1:
+                l = ls[0]
+                sd = self.cfg.single_def(l)
+                if sd is not None:
+                    preds = self.cfg.pred[block.i]
+                    if sd[0] == block.i or (len(preds) == 1 and preds[0] == sd[0]):
+                        if sd[1] == 'call':
+                            t = sd[2]
+                            return ('call', t.callee.path, tuple(self.operand(a) for a in t.args))
+                        return self.rvalue(sd[2].rv)
+        return e
 
 
 def show(e):
